@@ -3,6 +3,7 @@ C13 — Token hold time is honoured (station level).
 -/
 import ProfiVerif.Model.Station
 import ProfiVerif.Lemmas.StationMark
+import ProfiVerif.Lemmas.StationVisit
 
 namespace PV.C13
 open PV
@@ -143,5 +144,60 @@ theorem apps_flag (now : Int) (hp : Bool) :
                 · exact ⟨i, a, rfl⟩
                 · exact hall call hc
           · cases h
+
+/-! ## `visit_bounded`: at most one message cycle after the deadline per token visit -/
+
+open StationVisit
+
+/-- **Per poll, with the flag monotone**: in a poll of a visit (`Station.poll` starting in `UseToken`
+or `AwaitDataResponse`, any inputs) a message cycle — an application's `transmit_telegram` returned a
+telegram, `hasSend` — sets the `first_cycle_done` flag (`flag` = the flag in `UseToken`, `true` in
+every other state), keeps the station in the visit, and does not happen at or after the deadline with
+the flag already set; and a set flag is fresh again only after a poll that ended the visit by handing
+the token on to the station itself (since the repair of K3 the end of the token hold passes the
+token in the same poll, `passNow`). -/
+theorem cycle_sets_flag (s : Station) (apps : Apps) (now : Int) (phyTx : Bool) (rx : Bytes) (c' : Ctx)
+    (hin : inVisit s.st = true) (h : s.poll apps now phyTx rx = .ok c') :
+    (hasSend c'.calls = true →
+      flag c'.s.st = true ∧ inVisit c'.s.st = true ∧ ¬ (deadline s ≤ now ∧ flag s.st = true)) ∧
+    (flag s.st = true → flag c'.s.st = false → c'.tx ≠ none) :=
+  poll_visit s apps now phyTx rx c' hin h
+
+/-- **`visit_bounded`**: over ANY sequence of polls of one token visit (arbitrary times — not even
+assumed monotone —, PHY states, received bytes, application scripts, station state at the start of
+the visit), the number of message cycles started at or after the token-hold deadline is at most one. -/
+theorem visit_bounded (s : Station) (apps : Apps) (ins : List (Int × Bool × Bytes)) (n : Nat)
+    (h : lateCycles s apps ins = some n) : n ≤ 1 := by
+  have := lateCycles_flag ins s apps n h
+  omega
+
+/-- … and that one only as the first message cycle of the visit: once the flag is set (any cycle was
+attempted in this visit, or the station awaits a reply) no cycle starts after the deadline any more. -/
+theorem late_cycle_only_first (s : Station) (apps : Apps) (ins : List (Int × Bool × Bytes)) (n : Nat)
+    (hf : flag s.st = true) (h : lateCycles s apps ins = some n) : n = 0 := by
+  have := lateCycles_flag ins s apps n h
+  rw [hf] at this
+  simp at this
+  exact this
+
+/-! Non-vacuity: station 7 with one application that always wants to send an SDN telegram to 9.
+Token received at t = 1000; with the deadline already passed (500) exactly one cycle is performed
+(the guaranteed one; the next poll ends the visit with a GAP poll), with the deadline at 10000 all
+three polls start a cycle, none of them late. -/
+def demoS (deadl : Int) : Station :=
+  { (Station.new { address := 7, rate := 500000, slotBits := 200, ttrBits := 20000, gapWait := 10,
+                   hsa := 126, maxRetry := 1, minTsdrBits := 11 }) with
+    online := true, st := .useToken ⟨1000, none⟩ false, lastBusActivity := some 0,
+    lastTokenTime := 1000, endTokenHoldTime := deadl }
+
+def demoApp : List AppAnswer :=
+  List.replicate 3 (.send { da := 9, sa := 7, dsap := none, ssap := none, fc := .request .inactive .sdnLow } [1, 2, 3])
+
+example : lateCycles (demoS 500) [demoApp] [(1000, false, []), (3000, false, []), (5000, false, [])] = some 1 := by
+  decide
+example : lateCycles (demoS 10000) [demoApp] [(1000, false, []), (3000, false, []), (5000, false, [])] = some 0 := by
+  decide
+example : ((demoS 10000).poll [demoApp] 1000 false []).casesOn (fun c => hasSend c.calls) (fun _ => false) = true := by
+  decide
 
 end PV.C13
